@@ -22,15 +22,23 @@ SOURCES = ["include/etl/_algorithm", "include/etl/_numeric/accumulate.hpp", "inc
            "include/etl/_numeric/transform_reduce.hpp", "include/etl/_iterator/next.hpp", "include/etl/_iterator/prev.hpp",
            "include/etl/_iterator/advance.hpp", "include/etl/_iterator/distance.hpp", "include/etl/_functional/less.hpp",
            "include/etl/_utility/swap.hpp"]
-RULE = ("exhaustive: every key sequence of length <= 5 (quick) / 6 (thorough); rotate, reverse, shifts, sorts, merges up to 6 / 7) over the 3-key "
-        "alphabet {0,1,2} (thorough: also 4 keys up to length 5), each element tagged with its position, placed between two "
-        "context elements (and bare for short ranges); crossed with every unary predicate over the alphabet (bit masks), every "
-        "value key, comparators dflt/less/greater/key%3, binary predicates dflt/eq/key%2, every middle/split point, every count "
-        "n in [-1,len+1] where the standard defines it, every second range of length <= 3 (4), and the iterator categories each "
-        "algorithm accepts (pointer, input, forward, bidirectional, output wrapper); plus seeded random sequences up to length "
-        "14. Inputs violating a std precondition (unsorted input to binary searches / set operations / inplace_merge, "
-        "unpartitioned input to partition_point, overlapping copy destinations) are not generated. A case is non-trivial when "
-        "its range has at least two elements (or, for two-range algorithms, both ranges are non-empty); distinct = distinct case text.")
+RULE = ("exhaustive: every key sequence of length <= 5 (quick) / 6 (thorough) over the 3-key alphabet {0,1,2}, plus every sequence that "
+        "contains the fourth key 3 up to length 3 (quick) / 5 (thorough) (the comparator key%3 differs from less only there); rotate, "
+        "reverse, shifts, sorts, inplace_merge, remove_if, unique, partition, binary searches additionally on every 2-key sequence of "
+        "length 6 (quick) / 6-7 (thorough); each element tagged with its position, the range placed between two context elements (and "
+        "bare for ranges of length <= 2); crossed with every unary predicate over the alphabet (bit masks), every value key, comparators "
+        "dflt/less/greater/key%3, binary predicates dflt/eq/key%2, every middle/split point, every count n in [-1,len+1] where the "
+        "standard defines it, every second range of length <= 3 (4) over 3 keys (<= 2 over 4 keys) for first ranges up to length 4 (5), "
+        "the needle of search/find_end/find_first_of also as a sub-range between context elements. Iterator categories: ranges of "
+        "length <= 2 (empty and single-element included) run with EVERY category the algorithm accepts (pointer, input, forward, "
+        "bidirectional wrappers; range-checked random-access wrapper for the random-access sorts); longer ranges with one category per "
+        "case, rotated by a per-operation counter. Output-iterator algorithms write into a destination with 0 or 2 context elements in "
+        "front, an exact-fit window or one spare position, one context element behind, through a pointer or a write-only output "
+        "iterator wrapper (layout rotated per operation). Binary searches run on every sequence that is PARTITIONED with respect to the "
+        "value (the standard's precondition; sorted is not required). Plus seeded random sequences up to length 14 over 2-4 keys. Inputs "
+        "violating a std precondition (unsorted input to set operations / merge / inplace_merge, unpartitioned input to partition_point "
+        "and the binary searches, overlapping copy destinations) are not generated. A case is non-trivial when its range has at least "
+        "two elements (or, for two-range algorithms, both ranges are non-empty); distinct = distinct case text.")
 ASSUMPTIONS = ["libstdc++ 12 <algorithm>/<numeric> on raw pointers is the reference for spec validation (R2)",
                "elements are trivially copyable ints with an identity tag; moved-from positions are masked as unspecified",
                "comparators are strict weak orders, binary predicates equivalence relations (the standard's preconditions)",
@@ -41,35 +49,44 @@ _T = "Tetl.C06.Props."
 THEOREMS = {op: [_T + t for t in ts] for op, ts in {
     "find": ["find_eq"], "find_if": ["findIf_eq"], "find_if_not": ["findIfNot_eq"], "all_of": ["allOf_eq"],
     "any_of": ["anyOf_eq"], "none_of": ["noneOf_eq"], "count": ["count_eq"], "count_if": ["countIf_eq"],
-    "for_each": ["forEach_eq"], "for_each_n": ["forEachN_eq"], "copy_n": ["copyN_eq"], "transform": ["transform1_eq"],
-    "transform2": ["transform2_eq"], "copy_if": ["copyIf_eq"], "remove_copy_if": ["removeCopyIf_eq"],
-    "remove_copy": ["removeCopy_eq"], "partition_copy": ["partitionCopy_eq"], "reverse_copy": ["reverseCopy_eq"],
-    "partition_point": ["partitionPoint_eq"], "is_partitioned": ["isPartitioned_eq"], "find_first_of": ["findFirstOf_eq"],
-    "rotate": ["rotate_eq"], "rotate_copy": ["rotateCopy_eq"], "reverse": ["reverseRA_eq", "reverseBidi_eq"],
+    "for_each": ["forEach_eq"], "for_each_n": ["forEachN_eq"], "copy_n": ["copyN_eq", "copyN_out", "copyN_out_excludes_prefix_code"],
+    "transform": ["transform1_eq", "transform1_out"], "transform2": ["transform2_eq", "transform2_out"],
+    "copy_if": ["copyIf_eq", "copyIf_out"],
+    "remove_copy_if": ["removeCopyIf_eq", "removeCopyIf_out", "removeCopyIf_out_excludes_prefix_code"],
+    "remove_copy": ["removeCopy_eq", "removeCopy_out"], "partition_copy": ["partitionCopy_eq", "partitionCopy_out"],
+    "reverse_copy": ["reverseCopy_eq", "reverseCopy_out"], "copy_out": ["copyOut_out"], "move_out": ["copyOut_out"],
+    "partition_point": ["partitionPoint_eq"], "is_partitioned": ["isPartitioned_eq"],
+    "find_first_of": ["findFirstOf_eq", "findFirstOfB_eq"],
+    "rotate": ["rotate_eq"], "rotate_copy": ["rotateCopy_eq", "rotateCopy_out"], "reverse": ["reverseRA_eq", "reverseBidi_eq"],
     "lower_bound": ["lowerBound_eq"], "upper_bound": ["upperBound_eq"], "equal_range": ["equalRange_eq"],
     "binary_search": ["binarySearch_eq"], "mismatch": ["mismatch3_eq", "mismatch4_eq"],
     "equal": ["equal3_eq", "equal4RA_eq", "equal4Fwd_eq"], "lexicographical_compare": ["lexicographicalCompare_eq"],
     "accumulate": ["accumulate_eq"], "reduce": ["reduce_eq"], "transform_reduce1": ["transformReduce1_eq"],
     "inner_product": ["innerProduct_eq"], "transform_reduce": ["transformReduce2_eq"],
-    "adjacent_difference": ["adjacentDifference_eq"], "partial_sum": ["partialSum_eq"], "iota": ["iota_eq"],
-    "min": ["min2_eq"], "max": ["max2_eq"], "minmax": ["minmax2_eq"], "clamp": ["clamp_eq"],
-    "remove_if": ["removeIf_eq"], "remove": ["remove_eq"], "unique": ["unique_eq"], "unique_copy": ["uniqueCopy_eq"],
+    "adjacent_difference": ["adjacentDifference_eq", "adjacentDifference_out"],
+    "partial_sum": ["partialSum_eq", "partialSum_out"], "iota": ["iota_eq"],
+    "min": ["min2_eq", "min2_char"], "max": ["max2_eq", "max2_char"], "minmax": ["minmax2_eq", "min2_char", "max2_char"],
+    "clamp": ["clamp_eq", "clamp_char"],
+    "remove_if": ["removeIf_eq"], "remove": ["remove_eq"], "unique": ["unique_eq"],
+    "unique_copy": ["uniqueCopy_eq", "uniqueCopyFwd_out", "uniqueCopyOut_out"],
     "fill": ["fill_eq"], "fill_n": ["fillN_eq"], "generate": ["generate_eq"], "generate_n": ["generateN_eq"],
     "replace_if": ["replaceIf_eq"], "replace": ["replace_eq"], "swap_ranges": ["swapRanges_eq"],
     "copy": ["copy_eq"], "move": ["copy_eq"], "copy_backward": ["copyBackward_eq"], "move_backward": ["copyBackward_eq"],
-    "shift_left": ["shiftLeftRA_eq", "shiftLeftFwd_eq"], "shift_right": ["shiftRight_eq"],
+    "shift_left": ["shiftLeftRA_eq", "shiftLeftFwd_eq"], "shift_right": ["shiftRight_eq", "shiftRightNoFill_eq"],
     "adjacent_find": ["adjacentFind_eq"], "is_sorted_until": ["isSortedUntil_eq"], "is_sorted": ["isSorted_eq"],
     "min_element": ["minElement_eq"], "max_element": ["maxElement_eq"], "minmax_element": ["minmaxElement_eq"],
-    "search": ["search_eq"], "find_end": ["findEnd_eq"], "search_n": ["searchN_eq"],
+    "search": ["search_eq", "searchB_eq"], "find_end": ["findEnd_eq", "findEndB_eq"], "search_n": ["searchN_eq"],
     "is_permutation": ["isPermutation3_eq", "isPermutation4_eq", "isPermutation_spec_iff_perm"], "includes": ["includes_eq"],
     "partition": ["partition_eq"], "stable_partition": ["stablePartition_eq"],
-    "sort": ["sort_eq"], "gnome_sort": ["gnomeSort_eq"], "bubble_sort": ["bubbleSort_eq"], "exchange_sort": ["exchangeSort_eq"],
+    "sort": ["sort_eq"], "gnome_sort": ["gnomeSort_eq"], "bubble_sort": ["bubbleSort_eq"], "exchange_sort": ["exchangeSort_eq", "exchangeSort_unguarded_empty_oob"],
     "nth_element": ["nthElement_eq", "sorted_split"], "partial_sort": ["partialSort_eq", "sorted_split"],
     "stable_sort": ["stableSort_eq", "stableSort_characterisation"],
     "insertion_sort": ["insertionSort_eq", "stableSort_characterisation"],
     "merge_sort": ["mergeSort_eq", "stableSort_characterisation"], "inplace_merge": ["inplaceMerge_eq", "inplaceMerge_stable"],
-    "merge": ["merge_eq"], "set_difference": ["setDifference_eq"], "set_intersection": ["setIntersection_eq"],
-    "set_symmetric_difference": ["setSymmetricDifference_eq"], "set_union": ["setUnion_eq"]}.items()}
+    "merge": ["merge_eq", "merge_out"], "set_difference": ["setDifference_eq", "setDifference_out"],
+    "set_intersection": ["setIntersection_eq", "setIntersection_out"],
+    "set_symmetric_difference": ["setSymmetricDifference_eq", "setSymmetricDifference_out"],
+    "set_union": ["setUnion_eq", "setUnion_out"]}.items()}
 SEARCH_CAP = 900000
 
 CMPS = ["dflt", "less", "greater", "mod3"]
@@ -111,29 +128,65 @@ def in_ctx(r):
     return out
 
 
+# algorithms that write through an output iterator: destination layout `dp` (context elements in front of the
+# window) and `slack` (room beyond the exact fit) are rotated per operation, independently of the iterator kind
+OUT_OPS = {"copy_out", "move_out", "copy_if", "copy_n", "remove_copy", "remove_copy_if", "unique_copy", "reverse_copy",
+           "rotate_copy", "transform", "transform2", "partition_copy", "merge", "set_difference", "set_intersection",
+           "set_symmetric_difference", "set_union", "partial_sum", "adjacent_difference"}
+
+
 class Gen:
     def __init__(self, seed):
         self.cases = []
         self.dist = {}
         self.rnd = random.Random(seed)
-        self.k = 0
+        self.kc = {}      # per-operation counters (iterator kind x destination layout)
+
+    def _emit(self, line, t):
+        self.cases.append(Case(line, t))
+        self.dist[t] = self.dist.get(t, 0) + 1
 
     def add(self, op, a, f, l, extra="", kinds=None, tag=None):
         line = "%s a=%s f=%d l=%d" % (op, fmt_list(a), f, l)
         if extra:
             line += " " + extra
-        if kinds:
-            # rotate through the iterator categories the algorithm accepts
-            self.k += 1
-            line += " it=" + kinds[self.k % len(kinds)]
         t = tag or op
-        self.cases.append(Case(line, t))
-        self.dist[t] = self.dist.get(t, 0) + 1
+        nk = len(kinds) if kinds else 1
+        # ranges of length <= 2 (empty and single-element included): EVERY iterator category the algorithm accepts;
+        # longer ranges: one category per case, rotated by a counter of this operation (not a global one)
+        todo = range(nk) if (kinds and l - f <= 2) else [None]
+        for j in todo:
+            c = self.kc.get(op, 0)
+            self.kc[op] = c + 1
+            ln = line
+            if kinds:
+                ln += " it=" + kinds[c % nk if j is None else j]
+            if op in OUT_OPS:
+                q = c // nk if j is None else c
+                ln += " dp=%d slack=%d" % ((0, 2)[q % 2], (0, 1)[(q // 2) % 2])
+            self._emit(ln, t)
 
 
 IN = ["ptr", "in", "fwd", "bidi"]
 FWD = ["ptr", "fwd", "bidi"]
 BIDI = ["ptr", "bidi"]
+RA = ["ptr", "ra"]          # ra: range-checked random-access iterator (arithmetic outside [first,last] is reported)
+
+
+def partitioned(flags):
+    """all true, then all false"""
+    return all(flags[i] or not flags[i + 1] for i in range(len(flags) - 1))
+
+
+def bsearch_ok(op, cmp, r, v):
+    """the standard's precondition of the binary searches: partitioned with respect to the value (NOT: sorted)"""
+    lo = partitioned([lt(cmp, e, v) for e in r])
+    up = partitioned([not lt(cmp, v, e) for e in r])
+    if op == "lower_bound":
+        return lo
+    if op == "upper_bound":
+        return up
+    return lo and up and all((not lt(cmp, e, v)) or (not lt(cmp, v, e)) for e in r)
 
 
 def gen_for_range(g, r, a, f, l, nkeys, thorough, rich):
@@ -149,7 +202,7 @@ def gen_for_range(g, r, a, f, l, nkeys, thorough, rich):
             g.add(op, a, f, l, e, IN)
         for op in ("remove_if", "partition"):
             g.add(op, a, f, l, e, FWD)
-        g.add("stable_partition", a, f, l, e)
+        g.add("stable_partition", a, f, l, e, BIDI)
         g.add("replace_if", a, f, l, e + " w=%d" % vals[0], FWD)
         flags = [pred(p, x) for x in r]
         if all(flags[i] or not flags[i + 1] for i in range(n - 1)):
@@ -168,26 +221,26 @@ def gen_for_range(g, r, a, f, l, nkeys, thorough, rich):
             for cnt in range(-1, n + 2):
                 g.add("search_n", a, f, l, "%s n=%d eq=%s" % (e, cnt, eq), FWD)
         for cmp in CMPS:
-            if is_sorted(cmp, r):
-                for op in ("lower_bound", "upper_bound", "equal_range", "binary_search"):
+            for op in ("lower_bound", "upper_bound", "equal_range", "binary_search"):
+                if bsearch_ok(op, cmp, r, v):
                     g.add(op, a, f, l, "%s cmp=%s" % (e, cmp), FWD)
     for cmp in CMPS:
         e = "cmp=" + cmp
         for op in ("is_sorted", "is_sorted_until", "min_element", "max_element", "minmax_element"):
             g.add(op, a, f, l, e, FWD)
         for op in ("sort", "bubble_sort", "exchange_sort", "stable_sort", "insertion_sort", "merge_sort"):
-            g.add(op, a, f, l, e)
+            g.add(op, a, f, l, e, RA)
         g.add("gnome_sort", a, f, l, e, BIDI)
         for m in range(f, l + 1):
-            g.add("nth_element", a, f, l, "m=%d %s" % (m, e))
-            g.add("partial_sort", a, f, l, "m=%d %s" % (m, e))
+            g.add("nth_element", a, f, l, "m=%d %s" % (m, e), RA)
+            g.add("partial_sort", a, f, l, "m=%d %s" % (m, e), RA)
             if is_sorted(cmp, r[: m - f]) and is_sorted(cmp, r[m - f:]):
-                g.add("inplace_merge", a, f, l, "m=%d %s" % (m, e))
+                g.add("inplace_merge", a, f, l, "m=%d %s" % (m, e), BIDI)
     for eq in EQS:
         e = "eq=" + eq
         g.add("adjacent_find", a, f, l, e, FWD)
         g.add("unique", a, f, l, e, FWD)
-        g.add("unique_copy", a, f, l, e, BIDI)
+        g.add("unique_copy", a, f, l, e, IN)     # it=in|fwd: pure output iterator; ptr|bidi: pointer destination
     for m in range(f, l + 1):
         g.add("rotate", a, f, l, "m=%d" % m, FWD)
         g.add("rotate_copy", a, f, l, "m=%d" % m, FWD)
@@ -196,6 +249,8 @@ def gen_for_range(g, r, a, f, l, nkeys, thorough, rich):
     g.add("reverse_copy", a, f, l, "", BIDI)
     g.add("for_each", a, f, l, "", IN)
     g.add("transform", a, f, l, "", IN)
+    g.add("copy_out", a, f, l, "", IN)
+    g.add("move_out", a, f, l, "", IN)
     g.add("generate", a, f, l, "", FWD)
     for cnt in range(-1, n + 1):
         g.add("copy_n", a, f, l, "n=%d" % cnt, IN)
@@ -207,16 +262,20 @@ def gen_for_range(g, r, a, f, l, nkeys, thorough, rich):
             g.add("shift_left", a, f, l, "n=%d it=%s" % (cnt, it))
         for it in BIDI:
             g.add("shift_right", a, f, l, "n=%d it=%s" % (cnt, it))
+        g.add("shift_right", a, f, l, "n=%d ov=nd" % cnt, BIDI)   # value type without default constructor
 
 
 def gen_two_ranges(g, r, b, a, f, l):
     n = len(r)
     bs = "b=" + fmt_list(b)
+    # the needle of search / find_end / find_first_of: bare, and as a sub-range between two context elements
+    nb = "b=%s g=1 h=%d" % (fmt_list([702] + b + [703]), 1 + len(b))
     for eq in EQS:
         e = "%s eq=%s" % (bs, eq)
-        g.add("search", a, f, l, e, FWD)
-        g.add("find_end", a, f, l, e, FWD)
-        g.add("find_first_of", a, f, l, e, IN)
+        for ne in ((e, "%s eq=%s" % (nb, eq)) if eq == "eq" else (e,)):
+            g.add("search", a, f, l, ne, FWD)
+            g.add("find_end", a, f, l, ne, FWD)
+            g.add("find_first_of", a, f, l, ne, IN)
         g.add("mismatch", a, f, l, e + " ov=4", IN)
         for it in ("ptr", "in", "fwd"):
             g.add("equal", a, f, l, e + " ov=4 it=" + it)
@@ -331,10 +390,9 @@ def gen_random(g, count, thorough):
                     extra = ""
                 else:
                     extra = "cmp=" + cmp
-            kinds = {"reverse": BIDI, "shift_right": BIDI, "gnome_sort": BIDI, "unique_copy": BIDI}.get(op)
-            if kinds is None and op not in ("stable_partition", "sort", "stable_sort", "merge_sort", "nth_element",
-                                            "partial_sort", "inplace_merge"):
-                kinds = FWD
+            kinds = {"reverse": BIDI, "shift_right": BIDI, "gnome_sort": BIDI, "unique_copy": IN, "stable_partition": BIDI,
+                     "inplace_merge": BIDI, "sort": RA, "stable_sort": RA, "merge_sort": RA, "nth_element": RA,
+                     "partial_sort": RA}.get(op, FWD)
             g.add(op, a, f, l, extra, kinds, tag=op + "/rand")
         else:
             op = rnd.choice(ops2)
@@ -385,11 +443,11 @@ def generate(tier, seed):
     for r in seqs(K3, L3):
         for a, f, l in in_ctx(r):
             gen_for_range(g, r, a, f, l, 3, thorough, True)
-    if thorough:
-        for r in seqs(K4, 5, 1):
-            if 300 <= max(r):                      # sequences that really use the fourth key
-                a, f, l = in_ctx(r)[0]
-                gen_for_range(g, r, a, f, l, 4, thorough, True)
+    # sequences that really use the fourth key (cmp=mod3 differs from less only there): up to 3 (quick) / 5 elements
+    for r in seqs(K4, 5 if thorough else 3, 1):
+        if 300 <= max(r):
+            a, f, l = in_ctx(r)[0]
+            gen_for_range(g, r, a, f, l, 4, thorough, True)
     # the index-arithmetic mechanisms on longer ranges (contents matter less than positions: 2 keys)
     LL = 7 if thorough else 6
     for r in seqs([0, 1], LL, L3 + 1):
@@ -399,7 +457,7 @@ def generate(tier, seed):
             g.add("rotate", a, f, l, "m=%d" % m, FWD)
             for cmp in ("less", "greater"):
                 if is_sorted(cmp, r[: m - f]) and is_sorted(cmp, r[m - f:]):
-                    g.add("inplace_merge", a, f, l, "m=%d cmp=%s" % (m, cmp))
+                    g.add("inplace_merge", a, f, l, "m=%d cmp=%s" % (m, cmp), BIDI)
         for it in BIDI:
             g.add("reverse", a, f, l, "it=" + it)
         for cnt in range(0, n + 2):
@@ -407,12 +465,12 @@ def generate(tier, seed):
             g.add("shift_right", a, f, l, "n=%d" % cnt, BIDI)
         for p in (1, 2):
             g.add("remove_if", a, f, l, "p=%d" % p, FWD)
-            g.add("stable_partition", a, f, l, "p=%d" % p)
+            g.add("stable_partition", a, f, l, "p=%d" % p, BIDI)
             g.add("partition", a, f, l, "p=%d" % p, FWD)
         g.add("unique", a, f, l, "eq=eq", FWD)
         for cmp in ("less", "greater"):
             for op in ("sort", "stable_sort", "merge_sort", "bubble_sort", "exchange_sort"):
-                g.add(op, a, f, l, "cmp=" + cmp)
+                g.add(op, a, f, l, "cmp=" + cmp, RA)
             for v in (99, 199):
                 if is_sorted(cmp, r):
                     for op in ("lower_bound", "upper_bound", "equal_range", "binary_search"):
@@ -426,6 +484,13 @@ def generate(tier, seed):
         a, f, l = in_ctx(r)[0]
         for b in bl:
             gen_two_ranges(g, r, b, a, f, l)
+    # ... and two ranges over the 4-key alphabet (merge / set operations / includes under key%3)
+    bl4 = [[100 * k + 50 + i for i, k in enumerate(t)] for nb in range(3) for t in itertools.product(K4, repeat=nb)]
+    for r in seqs(K4, 3 if thorough else 2):
+        a, f, l = in_ctx(r)[0]
+        for b in bl4:
+            if (r and 300 <= max(r)) or (b and 350 <= max(b)):
+                gen_two_ranges(g, r, b, a, f, l)
     gen_copies(g, 6 if thorough else 5)
     gen_minmax(g)
     gen_numeric(g, 5 if thorough else 4, 3 if thorough else 2)
@@ -468,34 +533,64 @@ LEVEL_TEXT = ("Every function of etl/algorithm.hpp and the folds of etl/numeric.
               "counts (no size bound), to return `.ok` (never touches anything outside the range; fuelled loops such as gnome_sort, "
               "rotate, merge_sort terminate within their fuel) of exactly the declaratively specified std result with the context "
               "unchanged: unstable sorts / partition = a sorted (partitioned) permutation, stable sorts and inplace_merge = the unique "
-              "stable sorted permutation (List.mergeSort / List.merge), set operations = the standard's multiplicity rules. Hypotheses "
-              "are the standard's preconditions only (comparator is a strict weak order, binary predicate of is_permutation an "
-              "equivalence, sorted / partitioned inputs for the binary searches, set operations and inplace_merge, non-overlap rule of "
-              "copy / copy_backward, room in the second range). All algorithms are tied to the current "
-              "source on every run: model, implementation (ASan/UBSan, exact-size heap ranges, context sentinels, predicate-touch log, "
-              "pointer/input/forward/bidirectional/output iterator wrappers) and libstdc++ are run on the same inputs, exhaustive over "
-              "the property's own small box and random beyond; the spec is validated against libstdc++ on the same inputs.")
+              "stable sorted permutation (List.mergeSort / List.merge), set operations = the standard's multiplicity rules. The "
+              "algorithms that write through an output iterator (copy_if, copy_n, remove_copy(_if), unique_copy (both branches), "
+              "reverse_copy, rotate_copy, transform, partition_copy, merge, set_*, partial_sum, adjacent_difference, copy/move into "
+              "another object) are modelled with the destination storage, the window the caller provides and the output index: the "
+              "`_out` theorems prove destination = D_pre ++ result ++ untouched rest of the window ++ D_post and the RETURNED output "
+              "iterator = start + |result| (the pre-fix copy_n and remove_copy_if code is proved to violate them). The second range of "
+              "search / find_end / find_first_of is read through checked reads too. Hypotheses are the standard's preconditions only "
+              "(comparator is a strict weak order, binary predicate of is_permutation an equivalence, partitioned inputs for the "
+              "binary searches, sorted inputs for set operations and inplace_merge, non-overlap rule of copy / copy_backward, room in "
+              "the second range and in the destination). All algorithms are tied to the current source on every run: model, "
+              "implementation (ASan/UBSan, exact-size heap ranges, context sentinels, predicate-touch log, pointer / input / forward / "
+              "bidirectional / write-only output / range-checked random-access iterator wrappers) and libstdc++ are run on the same "
+              "inputs — exhaustive over a small box (3 keys up to length 5 quick / 6 thorough, the 4th key up to length 3 / 5, 2 keys up "
+              "to length 6 / 7 for the index-arithmetic mechanisms: smaller than the 6-7 x 3-4 box the property names, see rule) and "
+              "random beyond; the spec is validated against libstdc++ on the same inputs.")
 LEVEL_NOTE = ("Trusted: Lean kernel + propext/Classical.choice/Quot.sound; the hand model's fidelity outside the explored inputs; "
-              "g++-12/ASan; libstdc++ as oracle for spec validation. No modelled algorithm is left without a theorem "
-              "(coverage.correspondence_only is empty). nth_element / partial_sort are proved to leave a fully sorted permutation "
-              "(what this library does), which implies the standard's weaker postconditions. Complexity requirements of the standard "
-              "(e.g. partition_point is linear here) are outside the property and not checked.")
+              "g++-12/ASan; libstdc++ as oracle for spec validation. nth_element / partial_sort are proved to leave a fully sorted "
+              "permutation (what this library does), which implies the standard's weaker postconditions. Iterator arithmetic is "
+              "modelled on Nat indices; where the code forms an iterator before testing it (exchange_sort's prev(last)) the model "
+              "uses a checked `prevR`; elsewhere a decrement is guarded in the code and in the model, and the range-checked "
+              "random-access wrapper of the harness reports any iterator that leaves [first,last]. Iterator-category requirements "
+              "(an algorithm must COMPILE for the weakest category its signature names) are observed by instantiating the harness "
+              "with those wrappers, not proved. See coverage.unproved_observed for what is observed only or not covered.")
 # members modelled and compared on every run but without a Lean theorem yet
 CORRESPONDENCE_ONLY = []
 # algorithms whose model is proved equal to the spec for all inputs (TetlProofs/C06/Props.lean)
 WITH_THEOREM = [
     "find", "find_if", "find_if_not", "all_of", "any_of", "none_of", "count", "count_if", "for_each", "for_each_n",
-    "transform (unary)", "copy_if", "copy_n", "remove_copy", "remove_copy_if", "partition_copy", "reverse_copy", "rotate_copy",
-    "is_partitioned", "partition_point", "find_first_of", "rotate", "reverse (both branches)", "lower_bound", "upper_bound",
+    "transform (unary; values + destination/returned iterator)", "copy_if (+ destination/returned iterator)",
+    "copy_n (+ destination/returned iterator)", "remove_copy (+ destination/returned iterator)",
+    "remove_copy_if (+ destination/returned iterator)", "partition_copy (+ both destinations/returned iterators)",
+    "reverse_copy (+ destination/returned iterator)", "rotate_copy (+ destination/returned iterator)",
+    "copy / move into another object through an output iterator",
+    "is_partitioned", "partition_point", "find_first_of (needle as list and as checked range)", "rotate", "reverse (both branches)",
+    "lower_bound", "upper_bound",
     "equal_range", "mismatch (3/4 iterators)", "equal (3 iterators, 4 iterators both branches)", "lexicographical_compare",
     "accumulate", "reduce", "transform_reduce (unary)", "min", "max", "minmax", "clamp", "remove", "remove_if", "fill", "fill_n",
     "generate", "generate_n", "iota", "replace", "replace_if", "swap_ranges",
-    "merge", "stable_partition", "inner_product", "transform_reduce (binary)", "adjacent_difference",
-    "copy", "move", "copy_backward", "move_backward", "shift_left (both branches)", "shift_right", "unique_copy", "unique",
-    "adjacent_find", "is_sorted_until", "is_sorted", "partition", "transform (binary)", "binary_search", "partial_sum",
-    "search", "find_end", "search_n",
-    "sort", "gnome_sort (incl. termination)", "nth_element", "partial_sort", "bubble_sort", "exchange_sort",
+    "merge (+ destination/returned iterator)", "stable_partition", "inner_product", "transform_reduce (binary)",
+    "adjacent_difference (+ destination/returned iterator)",
+    "copy", "move", "copy_backward", "move_backward", "shift_left (both branches)",
+    "shift_right (with and without default-constructible value type)",
+    "unique_copy (read-back branch and value-copy branch, + destination/returned iterator)", "unique",
+    "adjacent_find", "is_sorted_until", "is_sorted", "partition", "transform (binary; + destination/returned iterator)",
+    "binary_search", "partial_sum (+ destination/returned iterator)",
+    "search (needle as list and as checked range)", "find_end (needle as list and as checked range)", "search_n",
+    "sort", "gnome_sort (incl. termination)", "nth_element", "partial_sort", "bubble_sort",
+    "exchange_sort (checked prev(last))",
     "stable_sort", "insertion_sort (stability)",
-    "min_element", "max_element", "minmax_element", "is_permutation (3/4 iterators)", "includes", "set_difference",
-    "set_intersection", "set_symmetric_difference", "set_union", "inplace_merge (stable merge)", "merge_sort (stability)"]
-UNPROVED_OBSERVED = ["complexity requirements of the standard (not part of the property; partition_point is linear here)"]
+    "min_element", "max_element", "minmax_element", "is_permutation (3/4 iterators)", "includes",
+    "set_difference (+ destination/returned iterator)", "set_intersection (+ destination/returned iterator)",
+    "set_symmetric_difference (+ destination/returned iterator)", "set_union (+ destination/returned iterator)",
+    "inplace_merge (stable merge)", "merge_sort (stability)"]
+UNPROVED_OBSERVED = [
+    "iterator-category requirements (inplace_merge / stable_partition for bidirectional iterators, unique_copy for a pure output "
+    "iterator, ...): observed by instantiating and running the harness with the weakest category each signature names, no theorem",
+    "the functor returned by for_each (observed: its call count), the predicate-call ORDER of stable_partition's two recursive "
+    "calls (unspecified evaluation order of function arguments)",
+    "search(first, last, searcher) / default_searcher and iter_swap with two different iterator types: neither modelled nor run",
+    "min / max / minmax / clamp return REFERENCES to their arguments: the harness compares values (and identity tags), not addresses",
+    "complexity requirements of the standard (not part of the property; partition_point is linear here)"]
